@@ -83,3 +83,12 @@ Example c07_old_change_base_refuted :
   let v := of_lit 53 1024 p64 m64 11 (-3) in
   fdiv 53 1024 p64 m64 (fmul 53 1024 p64 m64 v k) k <> v.
 Proof. intros k v H. apply (f_equal (@B2SF _ _)) in H. vm_compute in H. discriminate. Qed.
+
+(* ---- the unary helpers and predicates of the source (abs signum recip max min cbrt sqrt powi neg; classify and the is_ predicates) apply the storage
+   type's operation of the same name to the stored value (Gen/DelegSrc.v is regenerated from src/system.rs on every run) ---- *)
+From Coq Require Import String.
+From UomV Require Import Model.DelegSrc Gen.DelegSrc Spec.DelegTie.
+Theorem c07_helper_sources_are_direct :
+  forallb (fun e => negb (String.eqb (dl_file e) "src/system.rs") || deleg_ok e) src_delegations = true
+  /\ covers src_delegations "src/system.rs" (value_fns ++ predicate_fns) = true.
+Proof. split; vm_compute; reflexivity. Qed.
